@@ -89,7 +89,7 @@ def params_src(f: set, recv: str = "") -> str:
     if recv:
         ps.append(recv)
     if opt:
-        ps += ["g: int = 1", "/"]
+        ps += ["g: int | None = None" if "@posnone" in f else "g: int = 1", "/"]
     ps.append(f"a: int{sfx}")
     if "pmiss" in f:
         ps.append("b")
@@ -109,6 +109,10 @@ def params_src(f: set, recv: str = "") -> str:
         if "variadic" not in f:
             ps.append("*")
         ps.append("h: int")
+    if "@kwnone" in f:
+        if "variadic" not in f and "reqkwonly" not in f:
+            ps.append("*")
+        ps.append("hk: int | None = None")
     return ", ".join(ps)
 
 
